@@ -35,8 +35,9 @@ func (p *Parser) findConvergenEntries() ([]*intfEntry, error) {
 		if !ok {
 			continue
 		}
-		if p.srcPath != p.fset.Position(obj.Pos()).Filename {
-			// Skip other than the entry file.
+		if p.srcPath != p.fset.File(obj.Pos()).Name() {
+			// Skip other than the entry file. (The name of the file that really holds the
+			// declaration: a "//line" directive does not move it to another file.)
 			continue
 		}
 
